@@ -27,6 +27,8 @@ func runConnWrite(id string, toks []string) (res string) {
 		}
 	}()
 	switch toks[0] {
+	case "cwdl":
+		return runWriteInReadDeadlineWindow(toks)
 	case "resp":
 		return runRespond(toks[1:])
 	case "cwsw":
@@ -424,4 +426,38 @@ func runRespond(ops []string) string {
 		pend = append(pend, hx(q))
 	}
 	return "out=" + strings.Join(out, ",") + " pending=" + strings.Join(pend, ",")
+}
+
+// case: cwdl <shared> <p1> <p2>
+// The server sets a READ deadline in the past on the connection at the end of every request (to stop its pending read) and
+// clears it a moment later; a write that another goroutine makes in that window must go out like any other: p1, then
+// (deadline set) p2, then (deadline cleared) p1 again must arrive intact and decrypt in order.
+func runWriteInReadDeadlineWindow(toks []string) string {
+	k := sharedKey(toks[1])
+	p1, p2 := unhex(toks[2]), unhex(toks[3])
+	sc, con, ctx := newScripted(nil)
+	sess, err := newServerSession(k)
+	if err != nil {
+		return "setup-error"
+	}
+	s := ctx.GetSessionForConnection(sc)
+	s.SetCryptographer(sess)
+	s.Decrypter()
+	con.Write(p1)
+	con.SetReadDeadline(time.Unix(1, 0))
+	_, werr := con.Write(p2)
+	con.SetReadDeadline(time.Time{})
+	con.Write(p1)
+	var stream []byte
+	for _, w := range sc.written {
+		stream = append(stream, w...)
+	}
+	pt, ok := refOpenAll(refKey(k[:], "Control-Read-Encryption-Key"), 0, stream)
+	if !ok {
+		return fmt.Sprintf("undecryptable writes=%d write-error=%v", len(sc.written), werr != nil)
+	}
+	if hx(pt) != hx(p1)+hx(p2)+hx(p1) {
+		return "payloads-differ"
+	}
+	return "ok"
 }
